@@ -999,6 +999,129 @@ func (s *sim) checkAccessors(box *stateBox, where string) {
 		vsetter{"Eth1Data", func(c common.BeaconState) error { return c.SetEth1Data(e3) }, e3},
 		vsetter{"Slot", func(c common.BeaconState) error { return c.SetSlot(slot + 1) }, slot + 1},
 	)
+	// list accessors: what is appended is what is stored, in that order
+	if hr, ok := fieldOf(raw, "HistoricalRoots").(phase0.HistoricalRoots); ok && uint64(len(hr)) < uint64(s.w.spec.HISTORICAL_ROOTS_LIMIT) {
+		nr := fnvRoot("hist-append", uint64(len(hr)))
+		want := append(append(phase0.HistoricalRoots(nil), hr...), nr)
+		vs = append(vs, vsetter{"HistoricalRoots", func(c common.BeaconState) error {
+			h, err := c.HistoricalRoots()
+			if err != nil {
+				return err
+			}
+			return h.Append(nr)
+		}, want})
+	}
+	if ev, ok := fieldOf(raw, "Eth1DataVotes").(phase0.Eth1DataVotes); ok && uint64(len(ev)) < uint64(s.w.spec.EPOCHS_PER_ETH1_VOTING_PERIOD)*uint64(s.w.spec.SLOTS_PER_EPOCH) {
+		nv := common.Eth1Data{DepositRoot: fnvRoot("vote-append", 1), DepositCount: 77, BlockHash: fnvRoot("vote-append", 2)}
+		want := append(append(phase0.Eth1DataVotes(nil), ev...), nv)
+		vs = append(vs, vsetter{"Eth1DataVotes", func(c common.BeaconState) error {
+			v, err := c.Eth1DataVotes()
+			if err != nil {
+				return err
+			}
+			return v.Append(nv)
+		}, want})
+		if len(ev) > 0 {
+			vs = append(vs, vsetter{"Eth1DataVotes", func(c common.BeaconState) error {
+				v, err := c.Eth1DataVotes()
+				if err != nil {
+					return err
+				}
+				return v.Reset()
+			}, phase0.Eth1DataVotes(nil)})
+		}
+	}
+	if hs, ok := fieldOf(raw, "HistoricalSummaries").(capella.HistoricalSummaries); ok && uint64(len(hs)) < uint64(s.w.spec.HISTORICAL_ROOTS_LIMIT) {
+		ns := capella.HistoricalSummary{BlockSummaryRoot: fnvRoot("sum-append", 1), StateSummaryRoot: fnvRoot("sum-append", 2)}
+		want := append(append(capella.HistoricalSummaries(nil), hs...), ns)
+		if hst, ok := st.(interface {
+			HistoricalSummaries() (capella.HistoricalSummariesList, error)
+		}); ok {
+			_ = hst
+			vs = append(vs, vsetter{"HistoricalSummaries", func(c common.BeaconState) error {
+				h, err := c.(interface {
+					HistoricalSummaries() (capella.HistoricalSummariesList, error)
+				}).HistoricalSummaries()
+				if err != nil {
+					return err
+				}
+				return h.Append(ns)
+			}, want})
+		}
+	}
+	// per-validator setters: every field takes exactly the value given, the others keep theirs,
+	// and the bulk getter reads every field from its own place
+	if rv, ok := fieldOf(raw, "Validators").(phase0.ValidatorRegistry); ok && pick < len(rv) {
+		mod := *rv[pick]
+		mod.EffectiveBalance += s.w.spec.EFFECTIVE_BALANCE_INCREMENT
+		mod.ActivationEligibilityEpoch = 1001
+		mod.ActivationEpoch = 1002
+		mod.ExitEpoch = 1003
+		mod.WithdrawableEpoch = 1004
+		mod.WithdrawalCredentials = fnvRoot("wc-set", uint64(pick))
+		want := make(phase0.ValidatorRegistry, len(rv))
+		copy(want, rv)
+		want[pick] = &mod
+		vs = append(vs, vsetter{"Validators", func(c common.BeaconState) error {
+			vals, err := c.Validators()
+			if err != nil {
+				return err
+			}
+			v, err := vals.Validator(common.ValidatorIndex(pick))
+			if err != nil {
+				return err
+			}
+			for _, e := range []error{
+				v.SetEffectiveBalance(mod.EffectiveBalance), v.SetActivationEligibilityEpoch(1001), v.SetActivationEpoch(1002),
+				v.SetExitEpoch(1003), v.SetWithdrawableEpoch(1004), v.SetWithdrawalCredentials(mod.WithdrawalCredentials),
+			} {
+				if e != nil {
+					return e
+				}
+			}
+			// read back through a fresh handle
+			v2, err := vals.Validator(common.ValidatorIndex(pick))
+			if err != nil {
+				return err
+			}
+			var flat common.FlatValidator
+			if err := v2.Flatten(&flat); err != nil {
+				return err
+			}
+			wantFlat := common.FlatValidator{EffectiveBalance: mod.EffectiveBalance, Slashed: mod.Slashed, ActivationEligibilityEpoch: 1001, ActivationEpoch: 1002, ExitEpoch: 1003, WithdrawableEpoch: 1004}
+			if flat != wantFlat {
+				return fmt.Errorf("Flatten after the setters returns %+v, expected %+v", flat, wantFlat)
+			}
+			ee, _ := v2.ExitEpoch()
+			we, _ := v2.WithdrawableEpoch()
+			ae, _ := v2.ActivationEpoch()
+			el, _ := v2.ActivationEligibilityEpoch()
+			eb, _ := v2.EffectiveBalance()
+			wc, _ := v2.WithdrawalCredentials()
+			if ee != 1003 || we != 1004 || ae != 1002 || el != 1001 || eb != mod.EffectiveBalance || wc != mod.WithdrawalCredentials {
+				return fmt.Errorf("getters after the setters return (%d %d %d %d %d %s)", el, ae, ee, we, eb, wc)
+			}
+			return nil
+		}, want})
+		if !rv[pick].Slashed {
+			mod2 := *rv[pick]
+			mod2.Slashed = true
+			want2 := make(phase0.ValidatorRegistry, len(rv))
+			copy(want2, rv)
+			want2[pick] = &mod2
+			vs = append(vs, vsetter{"Validators", func(c common.BeaconState) error {
+				vals, err := c.Validators()
+				if err != nil {
+					return err
+				}
+				v, err := vals.Validator(common.ValidatorIndex(pick))
+				if err != nil {
+					return err
+				}
+				return v.MakeSlashed()
+			}, want2})
+		}
+	}
 	hFn := tree.GetHashFn()
 	for _, set := range vs {
 		c, err := st.CopyState()
